@@ -427,6 +427,17 @@ pub fn gen_logfuzz(r: &mut Rng, _cfg: &RunCfg) -> Op {
 pub fn gen_admin(r: &mut Rng, cfg: &RunCfg) -> Option<Op> {
 	let kinds = ["hash", "hash-uniform", "hash-preimage", "hash-rc", "btree", "tree:000", "tree:100"];
 	let ncols = cfg.cols.len() as u8;
+	if ncols > 50 {
+		// two-digit columns whose number is a prefix of a three-digit one
+		let col = if r.chance(2, 3) { r.range(10, (ncols / 10).min(25) as u64) as u8 } else { r.below(ncols as u64) as u8 };
+		let a = match r.below(6) {
+			0..=1 => AdminOp::ResetColumn(col, if r.chance(1, 2) { Some("hash".to_string()) } else { None }),
+			2..=3 => AdminOp::ClearColumn(col),
+			4 => AdminOp::DropLastColumn,
+			_ => AdminOp::OpenMismatch { col, field: r.below(7) as u8 },
+		};
+		return Some(Op::Admin(a, r.chance(1, 2)))
+	}
 	let a = match r.below(12) {
 		0..=1 => AdminOp::AddColumn(r.pick(&kinds).to_string()),
 		2 => AdminOp::DropLastColumn,
